@@ -124,9 +124,12 @@ class Subject(object):
       except Exception as e:  # pylint:disable=broad-except
         out = {'kind': 'exc', 'value': type(e).__name__}
       except BaseException as e:  # pylint:disable=broad-except
-        if type(e).__name__ != '_Overflow':
+        if type(e).__name__ == 'B1':
+          out = {'kind': 'exc', 'value': 'B1'}
+        elif type(e).__name__ != '_Overflow':
           raise
-        out = {'kind': 'timeout'}
+        else:
+          out = {'kind': 'timeout'}
     finally:
       signal.setitimer(signal.ITIMER_REAL, 0, 0)
       signal.signal(signal.SIGALRM, old)
@@ -148,9 +151,12 @@ class Subject(object):
       except Exception as e:  # pylint:disable=broad-except
         out = {'kind': 'exc', 'value': type(e).__name__}
       except BaseException as e:  # pylint:disable=broad-except
-        if type(e).__name__ != '_Overflow':
+        if type(e).__name__ == 'B1':
+          out = {'kind': 'exc', 'value': 'B1'}
+        elif type(e).__name__ != '_Overflow':
           raise
-        out = {'kind': 'timeout'}
+        else:
+          out = {'kind': 'timeout'}
     finally:
       signal.setitimer(signal.ITIMER_REAL, 0, 0)
       signal.signal(signal.SIGALRM, old)
